@@ -41,12 +41,13 @@ def run(ctx):
     # approximate coordinates: every construction history of AcordModel.tla
     K1, K2 = '{"polar", "inter", "resect", "trilat", "trav"}', '{"polar", "polarA", "resectA", "ddb", "fs2"}'
     KALL = '{"polar", "polarA", "polarZ", "inter", "interZ", "resect", "resectA", "trilat", "ddb", "fs2", "trav"}'
-    K3 = '{"polar", "polarZ", "interZ", "inter"}'
     if q:
         ra, ca = acordnets.generate(ctx, "c06d", {"NP": 5, "MaxExtra": 0, "Kinds": K1, "Keep": 211, "Seed": ctx.seed})
         ra2, ca2 = acordnets.generate(ctx, "c06f", {"NP": 5, "MaxExtra": 0, "Kinds": K2, "Keep": 307, "Seed": ctx.seed})
-        ra3, ca3 = acordnets.generate(ctx, "c06g", {"NP": 5, "MaxExtra": 0, "Kinds": K3, "Keep": 997, "Seed": ctx.seed})
-        ca, ra.distinct = ca + ca2 + ca3, ra.distinct + ra2.distinct + ra3.distinct
+        # azimuths: two small families instead of K3 (670 000 states)
+        ra3, ca3 = acordnets.generate(ctx, "c06g", {"NP": 5, "MaxExtra": 0, "Kinds": '{"polarZ", "inter"}', "Keep": 199, "Seed": ctx.seed})
+        ra4, ca4 = acordnets.generate(ctx, "c06j", {"NP": 5, "MaxExtra": 0, "Kinds": '{"polarZ", "interZ"}', "Keep": 307, "Seed": ctx.seed})
+        ca, ra.distinct = ca + ca2 + ca3 + ca4, ra.distinct + ra2.distinct + ra3.distinct + ra4.distinct
         rb, cb = acordnets.generate(ctx, "c06e", {"NP": 4, "MaxExtra": 1, "Kinds": KALL, "Keep": 307, "Seed": ctx.seed})
     else:
         ra, ca = acordnets.generate(ctx, "c06d", {"NP": 5, "MaxExtra": 0, "Kinds": KALL, "Keep": 53, "Seed": ctx.seed})
